@@ -28,7 +28,17 @@ EN = {'kilojoule/mole': (1e3, True), 'kcal/mol': (4184.0, True), 'joule': (1.0, 
 DCS = [0.5, 1.0, 1.5, 3.4, 1.2345649]          # the last ones carry 8 significant digits on purpose
 ECS = [0.6, 1.0, 2.48, 2.4789573]
 METHODS = ['toKelvin', 'toCelcius', 'toInvAngstrom', 'toInvNanometer', 'toConcentration', 'toVolumeFraction']
-ARGS = {'scalar': 0.75, 'arr1': [1.25], 'arr3': [0.5, 1.0, 2.5]}
+ARGS = {'scalar': 0.75, 'arr1': [1.25], 'arr3': [0.5, 1.0, 2.5],
+        # memory layouts other than C order: the transpose of a 2-D array and a reversed slice
+        'arr2dT': 'T', 'arr_rev': 'R'}
+
+
+def materialise(arg):
+    if isinstance(arg, str) and arg == 'T':
+        return (0.25 + 0.5 * np.arange(6, dtype=float)).reshape(2, 3).T
+    if isinstance(arg, str) and arg == 'R':
+        return np.array([0.5, 1.0, 2.5, 4.0])[::-1]
+    return np.array(arg, dtype=float) if isinstance(arg, list) else arg
 UNITS = {'toKelvin': 'kelvin', 'toCelcius': 'degree_Celsius', 'toInvAngstrom': '1 / angstrom', 'toInvNanometer': '1 / nanometer',
          'toConcentration': 'mole / liter', 'toVolumeFraction': 'dimensionless'}
 RTOL = 1e-9
@@ -65,7 +75,7 @@ class InputModified(Exception):
 
 
 def call(uc, method, arg):
-    a = np.array(arg, dtype=float) if isinstance(arg, list) else arg
+    a = materialise(arg)
     snap = np.array(a, dtype=float, copy=True)
     if method == 'toVolumeFraction':
         q = getattr(uc, method)(a, DIAM)
@@ -95,7 +105,7 @@ def check_call(rec, case, uc, method, argname, arg, dc, dcu, ec, ecu, label=''):
         rec.fail(case, '%s%s returned %s, not a quantity' % (method, label, type(q).__name__), {'method': method, 'kind': 'type'})
         return None
     mag = np.asarray(q.magnitude, dtype=float)
-    want = expected(method, arg, dc, dcu, ec, ecu)
+    want = expected(method, materialise(arg), dc, dcu, ec, ecu)
     if mag.shape != want.shape:
         rec.fail(case, '%s%s: result shape %r for argument shape %r' % (method, label, mag.shape, want.shape), {'method': method, 'kind': 'shape'})
         return None
